@@ -397,7 +397,7 @@ func (x *Exec) Enabled() []mc.Event {
 	// service faults can also be armed while the node is down (they hit the recovery)
 	for _, m := range f.Faults {
 		base := m
-		if i := strings.Index(m, "*"); i > 0 {
+		if i := strings.IndexAny(m, "*#"); i > 0 {
 			base = m[:i]
 		}
 		if len(x.W.Faults[IDA+"/"+base]) == 0 {
@@ -594,7 +594,12 @@ func (x *Exec) Apply(e mc.Event) {
 			x.W.LN[IDA].Resolve(h[0], e.Arg == "ok")
 		}
 	case "fault":
-		if i := strings.Index(e.Arg, "*"); i > 0 {
+		if i := strings.Index(e.Arg, "#"); i > 0 {
+			// "method#k": only the (k+1)-th next call fails
+			var k int
+			fmt.Sscanf(e.Arg[i+1:], "%d", &k)
+			x.W.AddFault(IDA, e.Arg[:i], k)
+		} else if i := strings.Index(e.Arg, "*"); i > 0 {
 			var n int
 			fmt.Sscanf(e.Arg[i+1:], "%d", &n)
 			for k := 0; k < n; k++ {
